@@ -65,7 +65,7 @@ type c01Case struct {
 	Path int    `json:"path,omitempty"` // index into c01Paths
 }
 
-var c01Paths = []string{"WriteTo", "WriteToFile(existing, longer file)", "NewReader", "Write", "WriteToTempFile"}
+var c01Paths = []string{"WriteTo", "WriteToFile(existing, longer file)", "NewReader", "Write", "WriteToTempFile", "second WriteTo of the same Msg"}
 
 func c01Exec(r *vf.Run, spec mb.Msg, path int) []finding {
 	m, err := mb.Build(spec, nil)
@@ -111,6 +111,10 @@ func c01Exec(r *vf.Run, spec mb.Msg, path int) []finding {
 			}
 			if p != "" {
 				_ = os.Remove(p)
+			}
+		case 5:
+			if _, werr = m.WriteTo(io.Discard); werr == nil {
+				_, werr = m.WriteTo(&buf)
 			}
 		default:
 			_, werr = m.WriteTo(&buf)
@@ -280,6 +284,20 @@ func c01Specs(thorough bool) []mb.Msg {
 	// file sources: every file API that consumes caller-owned memory at the call (AttachReader / EmbedReader on a
 	// reader over memory the caller recycles afterwards, on one scratch buffer the caller refills per file) and the
 	// lazy read-seeker, × file encoding × 1..2 embeds × 1..2 attachments
+	// bodies and files produced from templates (the content is the template's data)
+	for ti := range texts {
+		if bytes.ContainsAny(texts[ti], "\x00") {
+			continue
+		}
+		for _, menc := range []string{"qp", "b64"} {
+			specs = append(specs,
+				mb.Msg{Enc: menc, Parts: []mb.Part{{Type: "text/plain", Content: texts[ti], Via: "tpl"}}},
+				mb.Msg{Enc: menc, Parts: []mb.Part{{Type: "text/plain", Content: texts[ti], Via: "tpl"}, {Type: "text/html", Content: texts[(ti+2)%len(texts)], Via: "tpl"}},
+					Attach: []mb.File{{Name: "t.txt", Content: texts[(ti+1)%len(texts)], Source: "ttpl"}, {Name: "h.html", Content: texts[(ti+3)%len(texts)], Source: "htpl", Enc: "8bit"}},
+					Embeds: []mb.File{{Name: "e.txt", Content: texts[(ti+4)%len(texts)], Source: "htpl"}, {Name: "e2.txt", Content: texts[(ti+5)%len(texts)], Source: "ttpl"}}},
+			)
+		}
+	}
 	for _, src := range []string{"reader", "readseeker", "buffer"} {
 		for _, fe := range []string{"", "8bit"} { // (QP for files exists only as a field of hand-made File structs)
 			for ne := 0; ne <= 2; ne++ {
@@ -333,7 +351,7 @@ func init() {
 	vf.Register(&vf.Check{
 		ID: "C01", Title: "rendered MIME carries exactly the content the caller supplied",
 		Run: func(r *vf.Run) {
-			r.SetRule("builder programs in canonical order: 0..3 body parts × 0..2 embeds × 0..2 attachments × message encoding {QP, base64, 8bit} × file encoding {default base64, 8bit, QP via File.Enc} × per-part encodings/descriptions/content types/fixed boundary, contents rotated through a 25-entry text alphabet and an 18-entry binary alphabet (wrap points 57/58/75/76/77, dots, '=', boundary-like lines, bare CR/LF, all 256 byte values, 3000-byte binary); plus every single byte value in every encoding; plus files supplied through AttachReader/EmbedReader (memory recycled by the caller afterwards; one scratch buffer refilled per file) and Attach/EmbedReadSeeker; each program is rendered through WriteTo, WriteToFile onto an existing longer file, NewReader, Write and WriteToTempFile; each rendering is re-read by the harness' own MIME reader and compared leaf by leaf; distinct by program")
+			r.SetRule("builder programs in canonical order: 0..3 body parts × 0..2 embeds × 0..2 attachments × message encoding {QP, base64, 8bit} × file encoding {default base64, 8bit, QP via File.Enc} × per-part encodings/descriptions/content types/fixed boundary, contents rotated through a 25-entry text alphabet and an 18-entry binary alphabet (wrap points 57/58/75/76/77, dots, '=', boundary-like lines, bare CR/LF, all 256 byte values, 3000-byte binary); plus every single byte value in every encoding; plus files supplied through AttachReader/EmbedReader (memory recycled by the caller afterwards; one scratch buffer refilled per file) and Attach/EmbedReadSeeker; bodies and files produced from text/html templates; each program is rendered through WriteTo, WriteToFile onto an existing longer file, NewReader, Write, WriteToTempFile and a second WriteTo of the same Msg; each rendering is re-read by the harness' own MIME reader and compared leaf by leaf; distinct by program")
 			r.Assume("file media types without WithFileContentType are those of mime.TypeByExtension", "charset of text parts is the default UTF-8", "NUL bytes are not text")
 			specs := c01Specs(r.Thorough)
 			r.Extra("programs", len(specs))
